@@ -232,3 +232,50 @@ impl MulSpecImpl<Word> for IBig {
     open spec fn mul_req(self, rhs: Word) -> bool { true }
     open spec fn mul_spec(self, rhs: Word) -> IBig { ibig_of(self.v() * (rhs as int)) }
 }
+/// a non-zero ilog_spec is the exponent
+pub proof fn lemma_ilog_pow(n: int, base: int)
+    requires ilog_spec(n, base) >= 1
+    ensures ipow(base, ilog_spec(n, base)) == n
+{
+    if exists|k: nat| is_pow_of(n, base, k) {
+        let c = choose|c: nat| is_pow_of(n, base, c);
+        assert(is_pow_of(n, base, c));
+    }
+}
+pub open spec fn rd_val0<T, E>(r: Approximation<T, E>) -> T { match r { Approximation::Exact(v) => v, Approximation::Inexact(v, _) => v } }
+
+// ---- the contract of `Context::convert_base` on its integer-only shortcuts (C08) --------------------------------------
+pub open spec fn cb_pre<const B: Word, const NewB: Word>(precision: usize, repr: Repr<B>) -> bool {
+    let (sig, e) = (repr.significand.v(), repr.exponent as int);
+    &&& B >= 2 && NewB >= 2
+    // documented normal form of the operand (Repr invariant)
+    &&& sig_normal(B as int, sig)
+    // `ilog_exact` must not overflow a word: true for bases below 2^32 (see its contract)
+    &&& (if NewB > B { (NewB as int - 1) * (B as int) } else { (B as int - 1) * (NewB as int) }) <= Word::MAX
+    // THE CONTRACT COVERS THE INTEGER-ONLY SHORTCUTS: same base, an infinity, NewB a power of B, B a power of NewB
+    // (the general path -- ln / exp at doubled precision -- is cut off by rule D20 and proved unreachable)
+    &&& (NewB == B || repr_inf(repr) || (NewB > B && ilog_spec(NewB as int, B as int) > 1)
+            || (NewB < B && ilog_spec(B as int, NewB as int) > 1))
+    // KNOWN DEFECT REGION EXCLUDED: the shortcuts "same base" and "B is a power of NewB" return Exact(..) without
+    // looking at the target precision; the contract is claimed only where the value fits the precision
+    &&& ((!repr_inf(repr) && NewB == B) ==> (precision == 0 || ndigits(B as int, sig) <= precision))
+    &&& ((!repr_inf(repr) && NewB < B) ==> (precision == 0 || forall|s1: int, e1: int|
+            #[trigger] same_value(NewB as int, s1, e1, sig, e * ilog_spec(B as int, NewB as int))
+            && sig_normal(NewB as int, s1) ==> ndigits(NewB as int, s1) <= precision))
+    // exponent range: isize overflow of the new exponent is outside this contract
+    &&& ((!repr_inf(repr) && NewB < B) ==> isize::MIN <= e * ilog_spec(B as int, NewB as int) <= isize::MAX)
+    &&& ((!repr_inf(repr) && NewB > B) ==> forall|s1: int, e1: int|
+            #[trigger] same_value(B as int, s1, ilog_spec(NewB as int, B as int) * e1, sig, e)
+            ==> exp_in_range(NewB as int, s1, e1))
+}
+pub open spec fn cb_post<R: Round, const B: Word, const NewB: Word>(precision: usize, repr: Repr<B>, ret: Rounded<Repr<NewB>>) -> bool {
+    let (sig, e) = (repr.significand.v(), repr.exponent as int);
+    // infinities stay the same infinity
+    &&& (repr_inf(repr) ==> rd_val0(ret).significand.v() == 0 && rd_val0(ret).exponent == repr.exponent)
+    // C08: the exact value re-expressed in the new base (s1 * NewB^e1 == sig * B^e), then ONE correct rounding to the
+    // target precision under the mode R with a truthful flag
+    &&& (!repr_inf(repr) ==> exists|s1: int, e1: int| #[trigger] xsame(B as int, NewB as int, sig, e, s1, e1)
+            && round_once(R::md(), NewB as int, precision, s1, e1, ret))
+    // an Exact result is in normal form
+    &&& ((!repr_inf(repr) && ret is Exact) ==> sig_normal(NewB as int, rd_val0(ret).significand.v()))
+}
